@@ -64,7 +64,7 @@ func phaseA(r *ev.Run, rng *rand.Rand) {
 		r.Inconclusive("direct phase: the first update was not stored")
 		return
 	}
-	n := r.Pick(2000, 14000)
+	n := r.Pick(1400, 14000)
 	for i := 0; i < n; i++ {
 		e.threeWays(g.next(s))
 		if i%89 == 88 {
@@ -185,7 +185,7 @@ func phaseB(r *ev.Run, rng *rand.Rand) {
 	}
 	defer ru.close()
 	g := &gen{rng: rng}
-	ru.runPhase(g, r.Pick(8, 40), r.Pick(45, 60))
+	ru.runPhase(g, r.Pick(6, 40), r.Pick(45, 60))
 	if ru.ready() {
 		timed("list-grid-http", ru.httpListGrids)
 	}
@@ -200,13 +200,15 @@ func phaseB(r *ev.Run, rng *rand.Rand) {
 
 func main() {
 	r := ev.New("C18", "fault_enumeration")
-	r.Rule("direct: each case = one setter call (SetScheduleConfig / SetReplicationConfig / SetPDServerConfig / SetLabelPropertyConfig / SetLabelProperty / DeleteLabelProperty / SetClusterVersion / SetReplicationModeConfig) whose payload is the currently served section with 1-4 fields replaced by in-domain, boundary (0, 1, equal ratios, +-1e-9, NaN) or out-of-domain values, executed from one starting state under {config write refused before send, acknowledgement lost, unfaulted}; running: single-key POSTs to /pd/api/v1/config, /config/schedule, /config/replicate, /config/replication-mode, /config/label-property, /config/cluster-version and direct setter calls on a bootstrapped server with random write faults, leader resign + re-campaign every 45-60 updates; get-edit-set: 16 (getter, in-place edit of a nested slice/map) cases x {dropped, set with an invalid value, set} x 3 fault modes; overlap: groups of 2 updates (different sections, same section, label read-modify-write; directed + random from evolving states; on the running server setter || POST /store/1/limit) parked at their write of key config, both start orders x every release order (DFS) x {no failure, refused-before-send / lost-ack at released write 1 or 2}; in-flight: an update parked at its write while the serving options are reloaded in place (direct) or the leader resigns and re-campaigns (running), then a second update, both release orders x the same failures; the long-lived serving options are reloaded in place every 89 direct cases; list grids (complete): location-label lists of length 1..4 x isolation level {none, each index, not in the list} x {no illegal label, one of 9 illegal label-key forms at each index} through SetReplicationConfig, POST /config/replicate and POST /config (where expressible), scheduler lists of length 1..4 with one unregistered type at each index, label-property lists and store-limit maps with one odd item at each position. distinct = (phase, call site, input shape, set of mutated fields with their value classes, fault mode, outcome accepted/rejected/failed-write)")
+	r.Rule("direct: each case = one setter call (SetScheduleConfig / SetReplicationConfig / SetPDServerConfig / SetLabelPropertyConfig / SetLabelProperty / DeleteLabelProperty / SetClusterVersion / SetReplicationModeConfig) whose payload is the currently served section with 1-4 fields replaced by in-domain, boundary (0, 1, equal ratios, +-1e-9, NaN) or out-of-domain values, executed from one starting state under {config write refused before send, acknowledgement lost, unfaulted}; running: single-key POSTs to /pd/api/v1/config, /config/schedule, /config/replicate, /config/replication-mode, /config/label-property, /config/cluster-version and direct setter calls on a bootstrapped server with random write faults, leader resign + re-campaign every 45-60 updates; get-edit-set: 16 (getter, in-place edit of a nested slice/map) cases x {dropped, set with an invalid value, set} x 3 fault modes; overlap: groups of 2 updates (different sections, same section, label read-modify-write; directed + random from evolving states; on the running server setter || POST /store/1/limit) parked at their write of key config, both start orders x every release order (DFS) x {no failure, refused-before-send / lost-ack at released write 1 or 2}; in-flight: an update parked at its write while the serving options are reloaded in place (direct) or the leader resigns and re-campaigns (running), then a second update, both release orders x the same failures; the long-lived serving options are reloaded in place every 89 direct cases; list grids (complete): location-label lists of length 1..4 x isolation level {none, each index, not in the list} x {no illegal label, one of 9 illegal label-key forms at each index} through SetReplicationConfig, POST /config/replicate and POST /config (where expressible), scheduler lists of length 1..4 with one unregistered type at each index, label-property lists and store-limit maps with one odd item at each position; single-field grid (complete): every leaf field of the schedule, replication, pd-server and replication-mode structs (found by reflection) x its values (0/1/current+1/2^53+1/max for numbers, toggles, empty/suffix/upper-case/path-like and enum spellings for strings, 0/1h/90m for durations) through the setter, POST /config and the section route, in every JSON spelling (number as string, bool as string or unquoted, 60m/3600s/1h0m0s), plus the key in upper case and an unknown sibling key; groups of three updates of three sections; lifecycle: Reload of an empty store and Persist right after construction, two reloads in a row, context cancelled then Close then a new server on the same data. distinct = (phase, call site, input shape, set of mutated fields with their value classes, fault mode, outcome accepted/rejected/failed-write)")
 	r.Assume("setters are called on a real *server.Server; phase 'direct' uses server.CreateServer without Run (placement rules off, dashboard address auto/none) and core.NewStorage over an instrumented in-memory kv.Base; phase 'running' uses a started, bootstrapped single member whose storage is core.NewStorage over an instrumented etcd kv.Base at the server's own root path, and api.NewHandler invoked in process (httptest)")
 	r.Assume("storage failure = the first Save of key \"config\" inside the call fails, either before it is applied or after (lost acknowledgement); reload = config.NewPersistOptions(&config.Config{}).Reload(same storage)")
 	r.Assume("reload normalisation (documented): default schedulers re-added, disable-* / store-balance-rate / trace-region-flow / disable-raft-learner migrated away, schedulers-payload is display only, null == empty container, label lists are sets and a type without labels == absent type")
 	r.Assume("overlapping updates are judged by serial-order explanation: served section = some order of the accepted updates of that section (after a reload in the group also of updates refused with a lost acknowledgement); reloaded section = some order of the accepted plus any subset of the write-failed updates; no failure at all => reloaded == served; untouched sections unchanged. Interleavings are only those a real server has: concurrent handler goroutines meeting at the storage write, no lock is bypassed; waits for a blocked participant steer exploration only")
 	r.Assume("not driven overlapped: SetAllStoresLimit, AddStoreLimit/RemoveStoreLimit and OnStoreVersionChange (PutStore), coordinator scheduler add/remove and start-up rewrite (needs the 5 min prepare), lazy GetStoreLimit insert; in-memory windows between a handler's read and its setter call (no storage operation to gate); a failure of the second (revert) write of SetReplicationModeConfig")
 	r.Assume("lists that pd marshals as one comma-joined string (location-labels, runtime-services) are observed with their element structure as well; a location label must be a legal label key (documented format: alphanumerics, '-', '_', '.', '/', starting and ending alphanumeric, optional leading '$'); no length limit is documented, none is judged; runtime-services items are not validated by pd and commas inside them are not generated")
+	r.Assume("sections are observed twice: as JSON and field by field through reflection ((fields)); an accepted single-field update must leave every other field of every section as it was and, where the spelling is the natural JSON form, serve exactly the requested value; a key spelled in another letter case or an unknown key is counted (skipped_ambiguous) when pd accepts it, but may never change another field")
+	r.Assume("leader-schedule-policy outside {count,size} and key-type outside {table,raw,txn} are judged on the not-started server only: on a running server pd's background statistics job panics into log.Fatal on such a value and the process is gone (counted as skipped_process_killing_value_on_running_server); an item of runtime-services containing ',' is reachable from Go only and is counted, not judged")
 	r.Assume("not judged: multi-key POST /config (keys are applied one by one), empty cluster version (documented: base version), case/underscore variants of the replication mode, the default placement rule after a refused replication update (counted as default_rule_out_of_sync_repaired, repaired by the harness)")
 	if r.Replay != "" {
 		// the case list is a function of (seed, tier, shard): a replay re-runs the recorded one
